@@ -389,7 +389,9 @@ func (c *FCtx) freshVal(st *State, name string, t types.Type) Val {
 	return nil
 }
 
-var maxLen = new(big.Int).Lsh(big.NewInt(1), 48)
+// No object of 2^40 bytes or more exists in a process (assumption, listed under T9); make() may be asked for up to 2^47.
+var maxLen = new(big.Int).Lsh(big.NewInt(1), 40)
+var maxMake = new(big.Int).Lsh(big.NewInt(1), 47)
 
 func (c *FCtx) freshSlice(st *State, name string, elem types.Type, t types.Type, str bool) Val {
 	var es Sort
@@ -570,6 +572,12 @@ func (c *FCtx) valIte(cond *Term, a, b Val) (Val, bool) {
 			return nil, false
 		}
 		return FV{Ite(cond, x.Present, y.Present), Ite(cond, x.Value, y.Value), x.Typ}, true
+	case XV:
+		y, ok := b.(XV)
+		if !ok || x.Kind != y.Kind {
+			return nil, false
+		}
+		return XV{Kind: x.Kind, Arr: Ite(cond, x.Arr, y.Arr), Len: Ite(cond, x.Len, y.Len), RPos: Ite(cond, x.RPos, y.RPos), Typ: x.Typ}, true
 	}
 	return nil, false
 }
@@ -613,6 +621,9 @@ func sameVal(a, b Val) bool {
 	case FV:
 		y, ok := b.(FV)
 		return ok && x.Present == y.Present && x.Value == y.Value
+	case XV:
+		y, ok := b.(XV)
+		return ok && x.Kind == y.Kind && x.Arr == y.Arr && x.Len == y.Len && x.RPos == y.RPos
 	}
 	return false
 }
